@@ -23,7 +23,7 @@ func init() {
 	fw.Register(&fw.Check{
 		ID:    "C10",
 		Level: "model_checking",
-		Rule: "alphabet of 42 top-level statements over a few shared names (declarations with :=, var, const, const/iota, global, destructuring; assignments and ++; closure creation before/after writes to captured variables; closure factories; " +
+		Rule: "alphabet of 45 top-level statements over a few shared names (declarations with :=, var, const, const/iota, global, destructuring; assignments and ++; closure creation before/after writes to captured variables; closure factories; " +
 			"blocks, loops and try statements that re-use local slots; imports of a counting source module and a builtin module + mutation; shadowing a builtin; expression statements; println; the constants -0.0 and 0.0; runtime and compile errors). " +
 			"A state is a statement sequence of length <= 3 (thorough 4); for every sequence ALL 2^(n-1) ways of cutting it into consecutive fragments are evaluated in one Eval session and, for every fragment k, compared with a fresh Eval given the concatenation of fragments 1..k: " +
 			"result value or error (compile errors without position), cumulative printed output, and after the last fragment a probe fragment returning every declared name and calling every closure. Optimizer on and off. " +
@@ -44,7 +44,7 @@ type stmt struct {
 // defined result value, so values are compared only for fragments ending in an expression statement.)
 func (s stmt) isExpr() bool {
 	switch s.src {
-	case "len * 2", "[string(nz), string(pz)]", "f()", "g()", "h()", "m.inc()", "import(\"cnt\").inc()", "bm.x", "int(\"7\")", "println(\"p\", a)", "a", "[a, b]", "z := 0; 1 / z", "nosuchname":
+	case "len(\"abc\")", "len * 2", "[string(nz), string(pz)]", "f()", "g()", "h()", "m.inc()", "import(\"cnt\").inc()", "bm.x", "int(\"7\")", "println(\"p\", a)", "a", "[a, b]", "z := 0; 1 / z", "nosuchname":
 		return true
 	}
 	return false
@@ -96,6 +96,10 @@ var alphabet = []stmt{
 	// a literal constant named like a builtin that the optimizer may evaluate
 	{src: "const len = 7", declares: []string{"len"}, tag: "const"},
 	{src: "len * 2"},
+	// a builtin is used (with a non-constant argument), then shadowed, then called with constant arguments
+	{src: "xs := [1, 2]; q1 := len(xs)", declares: []string{"xs", "q1"}},
+	{src: "len := func(s) { return 42 }", tag: "closure"},
+	{src: "len(\"abc\")"},
 }
 
 func moduleMap() *ugo.ModuleMap {
